@@ -22,8 +22,8 @@ M = [
   'enqueue no longer waits for the storage writes'),
  ('M02b', 'C02', 'slimta/edge/smtp.py', "        for _, result in results:\n            if isinstance(result, (QueueError, RelayError)):\n                error = result\n                break\n        if isinstance(error, QueueError):\n            default_reply = Reply('451'",
   "        if isinstance(error, QueueError):\n            default_reply = Reply('451'", 'SMTP edge looks at the first enqueue result only'),
- ('M03a', 'C03', 'slimta/queue/__init__.py', "        if id not in self.active_ids:\n            self.active_ids.add(id)\n            self._pool_spawn('relay', self._attempt, id, envelope, attempts)",
-  "        if True:\n            self.active_ids.add(id)\n            self._pool_spawn('relay', self._attempt, id, envelope, attempts)", '_dequeue ignores the in-flight set'),
+ ('M03a', 'C03', 'slimta/queue/__init__.py', "        if id in self.active_ids:\n            return\n        self.active_ids.add(id)\n        try:\n            envelope, attempts = self.store.get(id)",
+  "        self.active_ids.add(id)\n        try:\n            envelope, attempts = self.store.get(id)", '_dequeue ignores the in-flight set'),
  ('M03b', 'C03', 'slimta/queue/__init__.py', "        for index in sorted(rcpt_indexes, reverse=True):", "        for index in sorted(rcpt_indexes):", 'delivered recipients deleted in ascending index order'),
  ('M04a', 'C04', 'slimta/diskstorage/__init__.py', "            except OSError:\n                logging.log_exception(__name__, queue_id=id)", "            except KeyError:\n                logging.log_exception(__name__, queue_id=id)",
   'start-up scan no longer tolerates a missing meta file'),
@@ -51,10 +51,9 @@ M = [
   "    def send_data(self, *data):\n        ret = []\n        for address, rcptto_reply in self.rcpttos:\n            if not rcptto_reply.code.startswith('5'):", 'LMTP expects a data reply for 4xx-rejected recipients'),
  ('M11a', 'C11', 'slimta/relay/smtp/client.py', "        if data.is_error():\n            raise SmtpRelayError.factory(data)", "        if data.code[0] == '5':\n            raise SmtpRelayError.factory(data)", 'a 4xx reply to DATA is not treated as a failure'),
  ('M11b', 'C11', 'slimta/relay/http.py', "        if status.startswith('2'):\n            result.set(smtp_reply)", "        if status.startswith('2') or status.startswith('3'):\n            result.set(smtp_reply)", 'HTTP 3xx treated as delivered'),
- ('M11c', 'C11', 'slimta/relay/smtp/__init__.py', "        if reply.code[0] == '5':", "        if reply.code[0] >= '4':", 'every failure classified permanent'),
  ('M12a', 'C12', 'slimta/queue/__init__.py', "            bisect.insort(self.queued, entry)\n            self.queued_ids.add(id)\n            self.wake.set()", "            bisect.insort(self.queued, entry)\n            self.queued_ids.add(id)",
   'scheduler not woken when an entry is added'),
- ('M12b', 'C12', 'slimta/queue/__init__.py', "            self.queued = []\n            self.queued_ids = set()", "            self.queued = []", 'flush leaves queued_ids stale'),
+ ('M12b', 'C12', 'slimta/queue/__init__.py', "            pass\n        self.queued_ids.discard(entry[1])", "            pass", 'a dispatched entry stays in queued_ids (stale de-duplication set)'),
  ('M13a', 'C13', 'slimta/queue/__init__.py', "                if replies[i] == reply:", "                if replies[i].code == reply.code:", 'bounces grouped by reply code only'),
  ('M13b', 'C13', 'slimta/queue/__init__.py', "        if envelope.sender:  # Can't bounce to null-sender.\n            self._pool_spawn", "        if True:\n            self._pool_spawn", 'null-sender guard removed'),
  ('M14a', 'C14', 'slimta/smtp/server.py', "        with Timeout(self.data_timeout):\n            try:\n                data = reader.recv()", "        with Timeout(None):\n            try:\n                data = reader.recv()", 'no data timeout on the server'),
